@@ -34,8 +34,10 @@ class SerialPool:
     """Drop-in for multiprocessing.Pool used by the two modules that fork a pool per call.
     starmap semantics (order preserving) are kept; a fixed sub-sample of every run uses the real pool."""
 
-    def __init__(self, *a, **k):
-        pass
+    def __init__(self, processes=None, *a, **k):
+        # the contract of multiprocessing.Pool's constructor is part of what the code under test relies on
+        if processes is not None and processes < 1:
+            raise ValueError("Number of processes must be at least 1")
 
     def __enter__(self):
         return self
